@@ -133,6 +133,11 @@ func runC16(r *simkit.Run) {
 				case "prepare":
 					m := markerOf(i, nextMarker)
 					nextMarker++
+					if other := slots[(cm.slot+1)%3]; other != nil && other.known && tp.Chance(1, 4) {
+						// the same text as a statement that is still open: two handles of one statement must not share anything
+						m, cm.n, cm.table = other.marker, other.nparams, other.table
+						r.Probe("same-text-prepared-twice")
+					}
 					var conds []string
 					for x := 0; x < cm.n; x++ {
 						conds = append(conds, fmt.Sprintf("p%d = ?", x))
